@@ -23,8 +23,9 @@ VARIABLES tid, l,
           subCov,       \* covariance digests handed to the optimiser, in submission order
           costDig,      \* digest of the assignment cost produced by the last relabel
           lastBeta,     \* what the labelling step was given as switching cost (summary)
-          began         \* the last round announced by a round_begin event
-tvars == <<tid, l, statDig, mrfDig, subCov, costDig, lastBeta, began>>
+          began,        \* the last round announced by a round_begin event
+          singleton     \* clusters whose statistics of this round were fitted to ONE window with the unbiased estimator
+tvars == <<tid, l, statDig, mrfDig, subCov, costDig, lastBeta, began, singleton>>
 allvars == <<vars, tvars>>
 
 Hdr == Traces[tid].hdr
@@ -57,10 +58,10 @@ TraceInit ==
     /\ scored = NoScore /\ costOf = [labels |-> <<>>, scored |-> NoScore]
     /\ workers = {} /\ task = [k \in 0..(Hdr.K - 1) |-> "none"] /\ gathered = 0
     /\ result = NoResult /\ err = "" /\ faults = 0 /\ exit = ""
-    /\ statDig = <<>> /\ mrfDig = <<>> /\ subCov = <<>> /\ costDig = "none" /\ lastBeta = <<>> /\ began = -1
+    /\ statDig = <<>> /\ mrfDig = <<>> /\ subCov = <<>> /\ costDig = "none" /\ lastBeta = <<>> /\ began = -1 /\ singleton = {}
 
 IsEvent(e) == l <= NEv /\ Ev.ev = e /\ l' = l + 1 /\ UNCHANGED tid
-KeepT == UNCHANGED <<statDig, mrfDig, subCov, costDig, lastBeta, began>>
+KeepT == UNCHANGED <<statDig, mrfDig, subCov, costDig, lastBeta, began, singleton>>
 
 (* C13 at a phase boundary: K clusters, member lists = sorted sets of the points carrying the label,
    and the state handed INTO the phase still projects to what it did before the phase ran *)
@@ -112,7 +113,7 @@ TraceRoundBegin ==
           /\ Continue
           /\ Clause("C09", "round_counter", Ev.round = round')
     /\ began' = Ev.round
-    /\ UNCHANGED <<statDig, mrfDig, subCov, costDig, lastBeta>>
+    /\ UNCHANGED <<statDig, mrfDig, subCov, costDig, lastBeta, singleton>>
 
 (* ------------------------------------------------------------------ repopulation *)
 TraceRepop ==
@@ -144,6 +145,7 @@ TraceStats ==
     /\ PhaseCommon(Ev.out)
     /\ statDig' = [k \in 1..cfg.K |-> [cov |-> Ev.out.cov[k], mean |-> Ev.out.mean[k]]]
     /\ subCov' = <<>>
+    /\ singleton' = IF Hdr.biased THEN {} ELSE {k \in Cls : Cardinality(members[k]) = 1}
     /\ UNCHANGED <<mrfDig, costDig, lastBeta, began>>
 
 (* ------------------------------------------------------------------ optimisation *)
@@ -156,7 +158,7 @@ TraceSubmit ==
               Ev.lamDig = Hdr.lamDig /\ Ev.W = Hdr.W /\ Ev.N = Hdr.N)
     /\ IF Ev.k = 0 THEN SubmitAll ELSE (pc = "gather" /\ UNCHANGED vars)
     /\ subCov' = Append(subCov, Ev.covDig)
-    /\ UNCHANGED <<statDig, mrfDig, costDig, lastBeta, began>>
+    /\ UNCHANGED <<statDig, mrfDig, costDig, lastBeta, began, singleton>>
 
 WorkerExplains(cov, theta) ==
     \E i \in 1..Len(Hdr.workerResults) : Hdr.workerResults[i][1] = cov /\ Hdr.workerResults[i][2] = theta
@@ -177,12 +179,14 @@ TraceOptimize ==
     /\ Clause("C13", "phase_keeps_the_fitted_statistics",
               \A k \in 1..cfg.K : Ev.out.cov[k] = statDig[k].cov /\ Ev.out.mean[k] = statDig[k].mean)
     /\ Clause("C03", "mrf_is_floor_of_what_the_optimiser_produced", \A k \in 1..cfg.K : Ev.o8[k] = "ok")
-    /\ Clause("C03", "mrf_finite_symmetric_positive_definite_with_finite_logdet",
-              Hdr.epsPos \/ \A k \in 1..cfg.K : Ev.o2[k] = "ok")
+    /\ ClauseDev("C03", "mrf_finite_symmetric_positive_definite_with_finite_logdet",
+                 Hdr.epsPos \/ \A k \in 1..cfg.K : Ev.o2[k] = "ok",
+                 "F8_singleton_unbiased",         \* only the one-window clusters are affected
+                 ~Hdr.biased /\ \A k \in 1..cfg.K : Ev.o2[k] # "ok" => Cardinality(members[k - 1]) = 1)
     /\ PhaseCommon(Ev.out)
     /\ mrfDig' = Ev.out.mrf
     /\ UNCHANGED vars
-    /\ UNCHANGED <<statDig, subCov, costDig, lastBeta, began>>
+    /\ UNCHANGED <<statDig, subCov, costDig, lastBeta, began, singleton>>
 
 (* ------------------------------------------------------------------ relabelling *)
 TraceRelabel ==
@@ -196,7 +200,8 @@ TraceRelabel ==
               /\ Ev.out.mrf = mrfDig
               /\ \A k \in 1..cfg.K : Ev.out.cov[k] = statDig[k].cov /\ Ev.out.mean[k] = statDig[k].mean)
     /\ Clause("C05", "table_is_gaussian_log_density_of_each_window", AllOkInc(Ev.o7))
-    /\ Clause("C03", "likelihood_table_and_cost_finite", Hdr.epsPos \/ Ev.finite)
+    /\ ClauseDev("C03", "likelihood_table_and_cost_finite", Hdr.epsPos \/ Ev.finite,
+                 "F8_singleton_unbiased", singleton # {})
     /\ Clause("C09", "state_carries_the_kernels_labels", Ev.rlabels = Ev.out.labels)
     \* C07(b): the switching cost the labelling step actually received
     /\ (Len(Hdr.stackedLens) > 1 =>
@@ -221,7 +226,7 @@ TraceRelabel ==
     /\ PhaseCommon(Ev.out)
     /\ costDig' = Ev.out.cost
     /\ lastBeta' = [zeroAt |-> Ev.betaZeroAt, allEqual |-> Ev.betaAllEqual]
-    /\ UNCHANGED <<statDig, mrfDig, subCov, began>>
+    /\ UNCHANGED <<statDig, mrfDig, subCov, began, singleton>>
 
 (* ------------------------------------------------------------------ stopping *)
 TraceConverged ==
@@ -302,9 +307,11 @@ TraceReturn ==
                  /\ Ev.K = K /\ Ev.W = W /\ Len(Ev.mrfShapes) = K
                  /\ \A k \in 1..K : Ev.mrfShapes[k] = <<NW, NW>>)
        \* ---- C03 / C05 / C16 / C17: values
-       /\ Clause("C03", "every_float_in_the_result_finite", Hdr.epsPos \/ Ev.allFinite)
-       /\ Clause("C03", "returned_mrfs_positive_definite",
-                 Hdr.epsPos \/ \A k \in 1..K : Ev.o2final[k] = "ok")
+       /\ ClauseDev("C03", "every_float_in_the_result_finite", Hdr.epsPos \/ Ev.allFinite,
+                    "F8_singleton_unbiased", singleton # {})
+       /\ ClauseDev("C03", "returned_mrfs_positive_definite",
+                    Hdr.epsPos \/ \A k \in 1..K : Ev.o2final[k] = "ok",
+                    "F8_singleton_unbiased", \A k \in 1..K : Ev.o2final[k] # "ok" => (k - 1) \in singleton)
        /\ Clause("C05", "per_point_values_are_log_densities_under_own_cluster",
                  \A k \in 1..K : Ev.o7final[k] \in {"ok", "inc", "empty"})
        /\ Clause("C16", "bic_matches_definition", OkInc(Ev.bicOk))
@@ -372,6 +379,8 @@ TraceRaise ==
           ELSE IF f.kind = "wrong_front_end"
           THEN Clause("C20", "type_error_names_the_right_entry_point",
                       Ev.type = "TypeError" /\ Ev.names_other_entry_point /\ pc = "call")
+          ELSE IF f.kind = "invalid_argument"
+          THEN Clause("C20", "invalid_arguments_are_refused_with_an_exception", Ev.type # "")
           ELSE Clause("C20", "unexpected_exception", FALSE)
        /\ Clause("C20", "no_worker_process_left_behind", Ev.children = 0)
        /\ Clause("C20", "call_does_not_hang", Ev.elapsedMs <= Hdr.timeLimitMs)
